@@ -516,6 +516,9 @@ def gen_portfolio(rnd, kinds=None, tmax=14, tz_prob=0.15, allow_mip=True, max_as
                 inner.append(gen_storage(rnd, g, prices, T, nm + '_s', [inner_nodes[0]], False, False))
             if rnd.random() < 0.4:
                 inner.append(gen_simple_contract(rnd, g, prices, T, nm + '_d', ext))
+            for ia in inner:   # own windows of wrapped assets
+                if rnd.random() < 0.35:
+                    put_window(ia['args'], window(rnd, g, kinds=['inside', 'start_only', 'end_only', 'straddle_end', 'straddle_start', 'covering']))
             a = {'type': 'StructuredAsset', 'name': nm, 'nodes': [ext], 'inner': inner, 'args': {}}
             node_names_extra = inner_nodes
             for x in node_names_extra:
